@@ -686,6 +686,60 @@ func concScenario(name string, fires int, withOff, withOn bool) *vx.Scenario {
 	return sc
 }
 
+// concOverlapScenario: two occurrences overlap (the handlers of the first are still running when the second
+// is dispatched) while a handler is registered in between. nOn On handlers are registered first, so that the
+// store's On list has every small length / spare capacity (1, 2, 3, 5 handlers: capacities 1, 2, 4, 8).
+// late = "once": a second Once handler is registered before the second occurrence; "on": an On handler is.
+func concOverlapScenario(name string, nOn int, late string) *vx.Scenario {
+	sc := &vx.Scenario{Name: name, PreemptOnly: true, Unbounded: true}
+	sc.Body = func(e *vsched.Exec) func() vx.Result {
+		s := sio.VerifNewHandlerStore[*tfn]()
+		var v vsched.Var
+		counts := make([]int, nOn+3)
+		fs := make([]tfn, nOn+3)
+		for i := range fs {
+			i := i
+			fs[i] = func() { v.Do(func() { counts[i]++ }) }
+		}
+		for i := 0; i < nOn; i++ {
+			s.On(&fs[i])
+		}
+		h1, h2, g := nOn, nOn+1, nOn+2
+		s.Once(&fs[h1])
+		vsched.GoQuiet("occurrence1", func() { s.ForEach(func(f *tfn) { (*f)() }, false) })
+		vsched.GoQuiet("register-then-occurrence2", func() {
+			switch late {
+			case "once":
+				s.Once(&fs[h2])
+			case "on":
+				s.On(&fs[g])
+			}
+			s.ForEach(func(f *tfn) { (*f)() }, false)
+		})
+		return func() vx.Result {
+			var r vx.Result
+			r.Outcome = fmt.Sprint(counts)
+			ctx := fmt.Sprintf("%d On handlers, Once handler h1 registered before two overlapping occurrences, %s handler registered before the second: run counts on=%v h1=%d h2=%d late-on=%d", nOn, late, counts[:nOn], counts[h1], counts[h2], counts[g])
+			if counts[h1] > 1 || counts[h2] > 1 {
+				r.Violate("handlerStore: Once handler ran more than once under racing occurrences", "%s", ctx)
+			}
+			if counts[h1] != 1 || (late == "once" && counts[h2] != 1) {
+				r.Violate("handlerStore: Once handler did not run", "%s", ctx)
+			}
+			for i := 0; i < nOn; i++ {
+				if counts[i] != 2 {
+					r.Violate("handlerStore: On handler missed an occurrence", "%s", ctx)
+				}
+			}
+			if late == "on" && (counts[g] < 1 || counts[g] > 2) {
+				r.Violate("handlerStore: On handler registered before an occurrence did not run for it (or ran more often than occurrences)", "%s", ctx)
+			}
+			return r
+		}
+	}
+	return sc
+}
+
 func concEventScenario(name string, fires int, withOff bool) *vx.Scenario {
 	sc := &vx.Scenario{Name: name, PreemptOnly: true, Unbounded: true}
 	sc.Body = func(e *vsched.Exec) func() vx.Result {
@@ -723,6 +777,11 @@ func scenarios(tier string) []*vx.Scenario {
 		concScenario("handlerStore/3fires", 3, false, false),
 		concEventScenario("eventHandlerStore/2fires", 2, false),
 		concEventScenario("eventHandlerStore/3fires-off-other", 3, true),
+	}
+	for _, nOn := range []int{1, 2, 3, 5} {
+		for _, late := range []string{"once", "on"} {
+			s = append(s, concOverlapScenario(fmt.Sprintf("handlerStore/overlapping-occurrences/%d-on-handlers/late-%s", nOn, late), nOn, late))
+		}
 	}
 	if tier == "thorough" {
 		s = append(s, concScenario("handlerStore/3fires-off-on", 3, true, true))
